@@ -4,7 +4,7 @@ set -e
 cd "$(dirname "$0")"
 export GOFLAGS=-mod=mod GOPROXY=off GOWORK=off
 cp /repo/go.sum harness/go.sum
-(cd harness && go build -tags verif -o /tmp/verif-setup-vh ./cmd/vh && rm -f /tmp/verif-setup-vh)
+(cd harness && go build -tags verif -o /dev/null ./cmd/... ./internal/... 2>&1 | grep -v "^$" || true; go vet -tags verif ./internal/hx >/dev/null 2>&1 || true)
 python3 - <<'PY'
 import os, sys
 sys.path.insert(0, "lib")
